@@ -735,13 +735,15 @@ Proof.
   - rewrite orb_false_r. reflexivity.
   - rewrite andb_true_r. reflexivity.
 Qed.
-Theorem when_all_agrees_binary a b : tr_when_all_asfound [a; b] = Some (CalcTraits.tr_when_all a b).
+Theorem when_all_agrees_binary a b : tr_when_all [a; b] = Some (CalcTraits.tr_when_all a b).
 Proof.
-  unfold tr_when_all_asfound, CalcTraits.tr_when_all; simpl. f_equal. apply traits_eq; simpl.
+  unfold tr_when_all, CalcTraits.tr_when_all; simpl. f_equal. apply traits_eq; simpl.
   - reflexivity.
   - reflexivity.
   - rewrite andb_true_r. reflexivity.
 Qed.
+Theorem stop_when_agrees_binary a b : tr_stop_when a b = CalcTraits.tr_stop_when a b.
+Proof. reflexivity. Qed.
 Theorem sequence_agrees_binary a b : tr_sequence_n a [b] = CalcTraits.tr_sequence a b.
 Proof. reflexivity. Qed.
 
